@@ -893,56 +893,89 @@ func (w *world) opWrite(p string) {
 		}
 		return r.Range(1, 40)
 	}
-	// restricted: the file is a candidate for the listed DagModifier finding
-	// (dag-pb leaf with inline data); never let the session grow it past its end
-	// unless it is emptied first.
-	restricted := w.avoidExt && st == wFound && !fn.dir && fn.inlineLeaf
-	form := r.Intn(6)
-	if restricted {
-		form = vlib.Pick(r, []int{0, 0, 6, 7})
-		if cur == 0 {
-			form = 0
+	// Half of the sessions follow one of four common shapes, the other half is a
+	// free sequence in which every order of {Write, Truncate(shrink/grow/0/same),
+	// fd.Flush, Seek(start, <= size)} can occur on the one descriptor, including
+	// Truncate as the last mutating step right after an explicit Flush.
+	truncTo := func() int64 {
+		switch r.Intn(5) {
+		case 0:
+			return 0
+		case 1:
+			return int64(size)
+		case 2:
+			return int64(size + r.Range(1, 30))
 		}
+		return int64(r.Intn(size + 1))
 	}
-	switch form {
-	case 0: // replace content
+	switch form := r.Intn(10); {
+	case form == 0: // replace content
 		steps = append(steps, wstep{kind: "trunc", n: 0})
 		size = 0
-	case 1: // truncate to some length (shrink or extend), maybe write afterwards
+	case form == 1: // truncate to some length (shrink or extend), maybe write afterwards
 		n := r.Intn(cur + 20)
 		if r.Chance(1, 4) {
 			n = cur
 		}
 		steps = append(steps, wstep{kind: "trunc", n: int64(n)})
 		size = n
-	case 2: // append
+	case form == 2: // append
 		steps = append(steps, wstep{kind: "seek", n: int64(size)})
 		pos = size
-	case 3: // overwrite somewhere inside
+	case form == 3: // overwrite somewhere inside
 		if size > 0 {
 			pos = r.Intn(size + 1)
 			steps = append(steps, wstep{kind: "seek", n: int64(pos)})
 		}
-	case 6: // shrink only
-		steps = append(steps, wstep{kind: "trunc", n: int64(r.Intn(cur))})
-	case 7: // overwrite strictly inside
-		pos = r.Intn(cur)
-		if pos > 0 {
-			steps = append(steps, wstep{kind: "seek", n: int64(pos)})
+	case form == 4: // (write or nothing) -> Flush -> Truncate -> (nothing | Flush)
+		if r.Bool() {
+			d := r.Bytes(chunkish())
+			steps = append(steps, wstep{kind: "write", data: d})
+			if len(d) > size {
+				size = len(d)
+			}
 		}
-		steps = append(steps, wstep{kind: "write", data: r.Bytes(r.Range(1, cur-pos))})
-	}
-	nw := r.Range(0, 2)
-	if len(steps) == 0 || steps[0].kind != "trunc" {
-		nw = r.Range(1, 2)
-	}
-	if form >= 6 {
-		nw = 0
-	}
-	for i := 0; i < nw; i++ {
-		steps = append(steps, wstep{kind: "write", data: r.Bytes(chunkish())})
-		if r.Chance(1, 6) {
+		steps = append(steps, wstep{kind: "flush"})
+		steps = append(steps, wstep{kind: "trunc", n: truncTo()})
+		if r.Chance(1, 3) {
 			steps = append(steps, wstep{kind: "flush"})
+		}
+	default: // free sequence
+		mut := false
+		for i, n := 0, r.Range(1, 5); i < n || !mut; i++ {
+			switch y := r.Intn(100); {
+			case y < 40:
+				d := r.Bytes(chunkish())
+				steps = append(steps, wstep{kind: "write", data: d})
+				pos += len(d)
+				if pos > size {
+					size = pos
+				}
+				mut = true
+			case y < 65:
+				t := truncTo()
+				steps = append(steps, wstep{kind: "trunc", n: t})
+				size = int(t)
+				mut = true
+			case y < 85:
+				steps = append(steps, wstep{kind: "flush"})
+			default:
+				pos = r.Intn(size + 1)
+				steps = append(steps, wstep{kind: "seek", n: int64(pos)})
+			}
+		}
+	}
+	if f := len(steps); f == 0 || (f == 1 && steps[0].kind != "write") || (f > 0 && f < 3 && steps[0].kind == "seek") {
+		// the four simple shapes end with one or two writes (a lone truncate sometimes stays alone)
+		nw := r.Range(1, 2)
+		if f == 1 && steps[0].kind == "trunc" {
+			nw = r.Range(0, 2)
+		}
+		for i := 0; i < nw; i++ {
+			steps = append(steps, wstep{kind: "write", data: r.Bytes(chunkish())})
+			if r.Chance(1, 6) {
+				steps = append(steps, wstep{kind: "flush"})
+			}
 		}
 	}
 	flags := mfs.Flags{Write: true, Sync: r.Bool(), Read: r.Chance(1, 4)}
@@ -1062,9 +1095,7 @@ func (w *world) opWrite(p string) {
 				}
 				// flushed content is what the tree shows from now on
 				fn.data = append([]byte(nil), data...)
-				if wasInline && grew {
-					fn.mixed = true
-				}
+
 				if fn.mt.kind != mtUnset {
 					fn.mt = mtime{kind: mtAnySet}
 				}
@@ -1093,9 +1124,7 @@ func (w *world) opWrite(p string) {
 	}
 	w.okWrite++
 	// the written bytes must be what the file now shows
-	if wasInline && grew && oldLen > 0 {
-		fn.mixed = true
-	}
+	_, _, _ = wasInline, grew, oldLen
 	if len(data) == 0 || inline == 0 {
 		fn.inlineLeaf = false
 	}
